@@ -11,7 +11,7 @@ EXPLANATION = ('Bounded symbolic execution (llsym, z3 bit-vectors) of the real L
                'mj_dsuMerge is checked as ONE INDUCTIVE STEP from an arbitrary parent[] satisfying the representation invariant, so merge '
                'histories of any length over forests of the stated size are covered; mj_dsuAssign from any invariant state; mj_floodFill on '
                'every CSR graph within the bound. Counterexamples are replayed on the natively compiled engine_island.c.')
-BOUNDS = {'quick': {'ntree': '<=4 (dsu), flood fill nr<=3 nnz<=4'}, 'thorough': {'ntree': '<=6 (dsu), flood fill nr<=4 nnz<=6'}}
+BOUNDS = {'quick': {'ntree': '<=4 (dsu), flood fill nr<=3 nnz<=4'}, 'thorough': {'ntree': '<=6 (dsu), flood fill nr<=4 nnz<=4'}}
 OUTSIDE = 'mj_island map construction and unionConstraintTrees (the generic Jacobian scan of treeNext IS covered: dense and sparse rows over 4 trees of 1/2/1/2 dofs); the special-cased constraint types of treeIterInit; flex stiffness coupling; forests larger than the bound.'
 ASSUMPTIONS = ['parent[] invariant: parent[t] = -1 or 0 <= parent[t] <= t with parent[parent[t]] != -1 (established by mj_island initialisation to -1 and preserved by mj_dsuMerge - the preservation is itself an obligation)',
                'mju_message(level ERROR) does not return (documented contract of error handlers)',
@@ -297,7 +297,7 @@ def units(tier):
     for n in ns:
         u.append(('merge_n%d' % n, 'unit_merge', {'ntree': n}))
         u.append(('assign_n%d' % n, 'unit_assign', {'ntree': n}))
-    fl = [(2, 2), (3, 2), (3, 4)] if tier == 'quick' else [(2, 2), (3, 2), (3, 4), (4, 4), (4, 6)]
+    fl = [(2, 2), (3, 2), (3, 4)] if tier == 'quick' else [(2, 2), (3, 2), (3, 4), (4, 4)]      # (4, 6) does not finish within 3000 s
     for nr, nnz in fl:
         u.append(('flood_nr%d_nnz%d' % (nr, nnz), 'unit_flood', {'nr': nr, 'nnz': nnz}))
     u += [('treeNext_dense', 'unit_treenext', {'sparse': False}), ('treeNext_sparse', 'unit_treenext', {'sparse': True})]
